@@ -65,6 +65,8 @@ var defaultPureMethods = []string{
 	"github.com/janelia-flyem/dvid/storage.VersionedCtx.UnversionedKeyPrefix",
 	"github.com/janelia-flyem/dvid/storage.VersionedCtx.MinVersionKey",
 	"github.com/janelia-flyem/dvid/storage.VersionedCtx.MaxVersionKey",
+	"github.com/janelia-flyem/dvid/datastore.DataService.IsMutationRequest",
+	"github.com/janelia-flyem/dvid/datastore.DataService.Versioned",
 	"github.com/janelia-flyem/dvid/dvid.Point.Value",
 	"github.com/janelia-flyem/dvid/dvid.Point.NumDims",
 }
@@ -302,8 +304,17 @@ func (e *Engine) verifyFunc(fn *ssa.Function, con *Contract) *VC {
 			st.ghost[g.Name] = v
 		}
 	}
+	var free []Val
+	for _, fv := range fn.FreeVars {
+		v, _ := vc.symbolic(fv.Type(), "fv."+fv.Name())
+		vc.assume(st, vc.wf(st, v))
+		if v.K == KPtr && v.L != nil {
+			vc.assume(st, not(eq(v.L.Ref, "0")))
+		}
+		free = append(free, v)
+	}
 	entry := st.clone()
-	res, out := vc.execFunc(fn, args, nil, st, 0, con, true)
+	res, out := vc.execFunc(fn, args, free, st, 0, con, true)
 	vc.obls = append(vc.obls, &Obligation{Name: key + "#cover.exit", Kind: "cover", Desc: "some return is reachable (assumptions are consistent)", Pos: e.fset.Position(fn.Pos()),
 		PC: out.pc, Goal: "false", Mark: vc.sc.mark(), Func: key, Cover: true})
 	if con != nil {
